@@ -708,6 +708,68 @@ def sparse_roundtrip(rep, quick):
                           dict(format=fmt, map_bytes=mlen, blocks=nb, case=c[:200000], cmd="harness mkArchive then readAll"), found_input=True)
     return n
 
+def zisofs_passthrough(rep, quick):
+    """iso9660 with the zisofs option and a member that already IS a zisofs file (made by mkzftree): the writer is
+    documented to store it as it is and mark it, so it reads back as the bytes it decodes to; when its first write is
+    shorter than the detection window it is compressed like any other file and reads back as it was written.  Either
+    way the image is readable and the members around it are untouched.  Sizes put the header the writer reserves
+    in front of each compressed file on both sides of its 64 KiB buffer."""
+    import readcore, zlib, struct
+    AE_IFREG = 0o100000
+    mk = vlib.compile_harness("mkArchive", "asan")
+    rd = vlib.compile_harness("readAll", "asan")
+    def zisofs(data, lb=15):
+        bs = 1 << lb
+        blocks = [data[i:i + bs] for i in range(0, len(data), bs)]
+        comp = [zlib.compress(b) if any(b) else b"" for b in blocks]
+        hdr = bytes([0x37, 0xE4, 0x53, 0x96, 0xC9, 0xDB, 0xD6, 0x07]) + struct.pack("<I", len(data)) + bytes([4, lb, 0, 0])
+        off, ptr = 16 + 4 * (len(blocks) + 1), b""
+        for c in comp:
+            ptr += struct.pack("<I", off); off += len(c)
+        return hdr + ptr + struct.pack("<I", off) + b"".join(comp)
+    r = vlib.rng(rep.seed, "C02-zisofs")
+    specs, metas = [], []
+    for dl, kind in ((100000, "text"), (3000, "text"), (40, "text")) if quick else ((100000, "text"), (300000, "rand"), (3000, "text"), (40, "text"), (70000, "text")):
+        D = bytes(r.choice(b"abcdefgh ") for _ in range(dl)) if kind == "text" else bytes(r.randrange(256) for _ in range(dl))
+        Z = zisofs(D)
+        for chunk in (0, 10, 64, 4096) if quick else (0, 10, 63, 64, 65, 4096, 100000):
+            for pre in (0, 65500, 65536) if quick else (0, 100, 63000, 65000, 65500, 65530, 65536, 66000, 131000):
+                ents = []
+                if pre:
+                    ents.append(["pre.bin", AE_IFREG, 0o644, 0, 0, 1, bytes(r.randrange(256) for _ in range(pre)), b"", b"", 0, []])
+                ents.append(["a.bin", AE_IFREG, 0o644, 0, 0, 1, Z, b"", b"", chunk, []])
+                ents.append(["b.txt", AE_IFREG, 0o644, 0, 0, 1, b"hello world\n" * 1000, b"", b"", 0, []])
+                specs.append(vfmt(["iso9660", "", "iso9660:rockridge=strict,zisofs=direct", 512, ents]))
+                metas.append((dl, chunk, pre, D, Z, ents))
+    rc, lines, err = vlib.run_exe(mk, vlib.write_cases(specs, "c02-zisofs-mk.cases"), timeout=900)
+    rcases, rmeta = [], []
+    for m, l in zip(metas, lines):
+        v = _vp(l)
+        if v[0] < -20 or v[-2] < -20:
+            rep.violation("C02:iso9660:zisofs-member:write-failed", "writing an iso9660 image with a zisofs member failed with status %s" % v[-2],
+                          dict(member_bytes=len(m[4]), chunk=m[1], before=m[2]), found_input=True)
+            continue
+        rcases.append(readcore.read_case(v[-1], source=(1,), consume=(0, 1 << 20, 1), noraw=1)); rmeta.append(m)
+    rc, rl, err = readcore.run_readall(rd, rcases, timeout=900)
+    n = 0
+    for (dl, chunk, pre, D, Z, ents), c, l in zip(rmeta, rcases, rl):
+        n += 1
+        d = readcore.digest_ok(l) if l else None
+        got = {e[1]: (e[10], e[12]) for e in (d or []) if isinstance(e, list) and len(e) > 9}
+        what = None
+        for e in ents:
+            st, b = got.get(e[0].encode(), (None, None))
+            if e[0] == "a.bin":
+                if not (st == 0 and b in (Z, D)):
+                    what = "the zisofs member (%d bytes, decoding to %d) reads back with status %s and %s bytes: neither what was written nor what it decodes to" % (
+                        len(Z), len(D), st, len(b) if isinstance(b, bytes) else b)
+            elif not (st == 0 and b == e[6]):
+                what = what or "member %s next to the zisofs member reads back with status %s and different bytes" % (e[0], st)
+        if what:
+            rep.violation("C02:iso9660:zisofs-member", "iso9660 zisofs=direct, member written in pieces of %d, %d bytes in front of it: %s" % (chunk, pre, what),
+                          dict(case=c[:200000], chunk=chunk, before=pre, cmd="harness mkArchive then readAll"), found_input=True)
+    return n
+
 def run(rep):
     C10.big_stack()
     pr = vlib.proof_part(rep, "C02", translators=["gen_defines", "gen_fmt"])
@@ -769,6 +831,7 @@ def run(rep):
     parse_correspondence(rep, runner, parse_todo, stats)
     try:
         stats["sparse_roundtrips"] = sparse_roundtrip(rep, rep.tier == "quick")
+        stats["zisofs_members"] = zisofs_passthrough(rep, rep.tier == "quick")
     except (vlib.BuildError, Exception) as ex:
         rep.violation("C02:sparse:could-not-run", "sparse round trips could not be run: %r" % (ex,), dict(error=repr(ex)), found_input=False)
     if round2:
